@@ -338,7 +338,7 @@ pub fn run(ctx: &mut Ctx) {
         }
     }
     // Phase B: bit arrays of every length 1..70 (several fillings each), ragged shapes
-    let reps = ctx.q(40, 600);
+    let reps = ctx.q(120, 1200);
     ctx.cases("bits", 70 * reps, |ctx, idx| {
         let n = (idx % 70 + 1) as usize;
         let bits: Vec<u128> = match (idx / 70) % 4 {
@@ -366,7 +366,7 @@ pub fn run(ctx: &mut Ctx) {
         std::fs::create_dir_all(&d).ok();
         std::fs::File::create(format!("{}/c13_json_{}.jsonl", d, ctx.shard)).unwrap()
     });
-    let total = ctx.q(24000, 400000);
+    let total = ctx.q(100000, 1000000);
     ctx.cases("json", total, |ctx, idx| {
         let depth = (idx % 5) as u32;
         let t = rand_nested_type(&mut ctx.rng, depth);
